@@ -14,8 +14,11 @@ class Stream:
     spec_eq(impl_out, spec_out) -> bool  (default: string equality)
     """
 
-    def __init__(self, name, cases, nontrivial=None, classify=None, spec_eq=None, model_eq=None):
+    def __init__(self, name, cases, nontrivial=None, classify=None, spec_eq=None, model_eq=None,
+                 derive=None, shrinkable=True):
         self.name, self.cases = name, cases
+        self.derive = derive          # derive(cases, impl_outs) -> [dict(req=, expect=, kind='model'|'spec', why=, history=[lines])]
+        self.shrinkable = shrinkable
         self.nontrivial = nontrivial or (lambda c, o: True)
         self.classify = classify or (lambda c, i, s: None)
         self.spec_eq = spec_eq or (lambda i, s: i == s)
@@ -133,6 +136,7 @@ def main(argv):
     evaluations = 0
     distinct = set()
     corr_breaks = []
+    derived_violations = []
     seen_known = {}
     for st in streams:
         reqs = [c["req"] for c in st.cases]
@@ -145,6 +149,18 @@ def main(argv):
             so = vlib.run_model([st.cases[i]["spec"] for i in spec_idx])
             spec_out = dict(zip(spec_idx, so))
         evaluations += len(reqs)
+        n_der = 0
+        if st.derive:
+            der = st.derive(st.cases, impl)
+            n_der = len(der)
+            if der:
+                dout = vlib.run_model([d["req"] for d in der])
+                for d, o in zip(der, dout):
+                    if o != d["expect"]:
+                        if d.get("kind") == "spec":
+                            derived_violations.append((st, d, o))
+                        else:
+                            corr_breaks.append((st, d.get("index", 0), d["expect"], o))
         n_nt = 0
         out_hist = {}
         for i, c in enumerate(st.cases):
@@ -162,7 +178,7 @@ def main(argv):
                     violations.append(("spec", st, c, impl[i], spec_out[i], model[i]))
         stats[st.name] = {"cases": len(reqs), "nontrivial": n_nt,
                           "output_histogram": dict(sorted(out_hist.items(), key=lambda kv: -kv[1])[:12]),
-                          "spec_checked": len(spec_idx), "wall_s": round(time.time() - ts, 2)}
+                          "spec_checked": len(spec_idx), "derived_checks": n_der, "wall_s": round(time.time() - ts, 2)}
         for c in st.cases[:2]:
             samples.append({"stream": st.name, "request": vlib.decode_line(c["req"])})
         log(f"stream {st.name}: {len(reqs)} cases, {n_nt} non-trivial, "
@@ -205,6 +221,15 @@ def main(argv):
             "implementation": io, "spec_expects": so, "model": mo, "seed": seed,
             "proof_problem": proof_problem,
             "replay_cmd": f"./check {prop} --replay <this file>"})
+        print(f"VIOLATION property={prop} replay={rp}")
+        rc = 1
+    for st, d, o in derived_violations[:3]:
+        rp = vlib.write_replay(prop, {
+            "property": prop, "kind": "implementation violates spec (derived check)", "stream": st.name,
+            "why": d.get("why"), "history": [vlib.decode_line(l) for l in d.get("history", [])],
+            "history_lines": d.get("history", []),
+            "spec_request": vlib.decode_line(d["req"]), "spec_says": o, "expected_for_property": d["expect"],
+            "seed": seed, "proof_problem": proof_problem})
         print(f"VIOLATION property={prop} replay={rp}")
         rc = 1
     if rc == 0 and (corr_breaks or not proof_ok):
